@@ -1,5 +1,5 @@
 """C06  Pool broadcast runs the task once per index and publishes its effects."""
-from lib.facts import norm, place_fields, direct_place, const_int
+from lib.facts import norm, place_fields, direct_place, const_int, nophi
 from lib import tables
 
 EXPLANATION = (
@@ -153,7 +153,7 @@ def r06_1(ctx, prog, crate):
                   not any(s.kind in ("binop", "unop", "const") for s in srcs),
                   "R06.1", ["TaskShared::new", "ref_count-is-aux_threads"], "ref_count initialised from %s" % sorted(s.label() for s in srcs), ts.where(0))
         o = rv["ops"][rv["fields"].index("main_thread")]
-        ctx.check(any(s.kind == "call" and s.a == "std::thread::current" for s in ts.prov.op_src(o)), "R06.1", ["TaskShared::new", "main_thread-is-current"],
+        ctx.check(any(s.kind == "call" and s.a == "std::thread::current" for s in ts.prov.op_src(o)) and nophi(ts.prov.op_src(o)), "R06.1", ["TaskShared::new", "main_thread-is-current"],
                   "main_thread is not thread::current()", ts.where(0))
     # broadcast: same aux_threads to TaskShared::new and to broadcast_task
     n = [c for c in br.live_calls() if c.callee == POOL + "TaskShared::new"]
@@ -220,7 +220,7 @@ def r06_1(ctx, prog, crate):
                     cap = cp
             if cap:
                 srcs = cap[0].prov.op_src(cap[1])
-                ctx.check(any(s.kind == "call" and s.a == "std::sync::mpsc::Receiver::recv" for s in srcs), "R06.1", ["worker", "runs-received-task"],
+                ctx.check(any(s.kind == "call" and s.a == "std::sync::mpsc::Receiver::recv" for s in srcs) and nophi(srcs), "R06.1", ["worker", "runs-received-task"],
                           "the task run is not the one received", c.line())
     sp = prog.body(POOL + "spawn", crate)
     if ctx.anchor("R06.1", "spawn", 1 if sp else 0, 1):
